@@ -234,13 +234,13 @@ package dispatch
 // loop ends only when the group was destroyed or its context cancelled. (select/ticker are abstracted: any tick
 // value, any interleaving with cancellation.)
 //@ func (*aggrGroup).run
-//@   props C04 C05 C06 C20
+//@   props C04 C05 C06 C20 C15
 //@   nosafe
 //@   at call context.WithTimeout assert [each-flush-gets-the-full-delivery-budget-from-when-it-starts] arg1 == ret("dynamic:field:timeout") && count("context.WithTimeout") == count("aggrGroup).flush")
 //@   at call aggrGroup).flush assert [flush-under-a-budgeted-context] count("context.WithTimeout") == count("aggrGroup).flush") + 1
 //@   opaque aggrGroup).flush notify.With marker.WithContext context.WithTimeout aggrGroup).GroupKey aggrGroup).destroyed Timer).Stop
 //@   noeffect notify.With marker.WithContext context.WithTimeout aggrGroup).GroupKey aggrGroup).destroyed dynamic:field:timeout dynamic: Timer).Stop
-//@   at call notify.WithNow assert [tick-instant-not-clock] arg1 == now
+//@   at call notify.WithNow assert [tick-instant-not-clock] arg1 == now && ret("select") == 0 && arg1 == ret("recvcase.value0")
 //@   at call notify.WithRepeatInterval assert [repeat-of-the-route] arg1 == cell(ag).opts.RepeatInterval
 //@   at call notify.WithReceiverName assert [receiver-of-the-route] arg1 == cell(ag).opts.Receiver
 //@   at call notify.WithGroupKey assert [key-of-this-group] arg1 == ret("aggrGroup).GroupKey")
